@@ -1,5 +1,5 @@
 //! C10 — static well-formedness rules are enforced and reported truthfully.
-//! Explores all syntactically valid files of at most m items over a 155-item alphabet built from small
+//! Explores all syntactically valid files of at most m items over a 184-item alphabet built from small
 //! name pools (every combination of simultaneous violations occurs); oracle: R-validate's violation *set*.
 
 use crate::common::*;
@@ -19,7 +19,7 @@ pub fn item_alphabet() -> Vec<String> {
         }
     }
     for x in ["A", "B", "T", "a", "Tok", "_a", "_9"] {
-        for fs in ["", "($T)", "(A)", "(B)", "(T)", "($A)", "($Z)", "(Z)", "{x: $T}", "{X: $T}", "{_: $T}", "(_: $A)", "{_x: $T}", "{_X: $T}"] {
+        for fs in ["", "($T)", "(A)", "(B)", "(T)", "($A)", "($Z)", "(Z)", "{x: $T}", "{X: $T}", "{_: $T}", "(_: $A)", "{_x: $T}", "{_X: $T}", "{_: $Z}", "(_: Z)", "{x: Z}"] {
             items.push(format!("struct {x}{fs}"));
         }
     }
@@ -44,11 +44,46 @@ pub fn item_alphabet() -> Vec<String> {
             // a variant named like a nonterminal / a terminal is no clash
             "A",
             "T($T)",
+            // violations inside variants: undefined symbols in named / `_` fields, upper-case field, lower-case variant next to a good one
+            "V{x: $Z}",
+            "V(_: Z)",
+            "V{X: $T}",
+            "V v",
         ] {
             items.push(format!("enum {x} {{ {vs} }}"));
         }
     }
     items
+}
+
+/// Capitalisation rules, systematically: every identifier of at most 4 characters over {a, Z, _, 9}
+/// in every role that has a capitalisation rule (and as start symbol / referenced symbol).
+pub fn name_probe_files() -> Vec<String> {
+    let alphabet = ['a', 'Z', '_', '9'];
+    let mut ids: Vec<String> = vec![];
+    let mut level: Vec<String> = vec!["a".into(), "Z".into(), "_".into()];
+    for _ in 0..4 {
+        ids.extend(level.iter().cloned());
+        let mut next = vec![];
+        for s in &level {
+            for c in alphabet {
+                next.push(format!("{s}{c}"));
+            }
+        }
+        level = next;
+    }
+    ids.retain(|s| s != "_");
+    let mut out = vec![];
+    for x in &ids {
+        out.push(format!("start {x}\nstruct {x}\nterminal Tok {{}}"));
+        out.push(format!("start A\nenum A {{ {x} W($T) }}\nterminal Tok {{ $T: () }}"));
+        out.push(format!("start A\nstruct A(${x})\nterminal Tok {{ ${x}: () }}"));
+        out.push(format!("start A\nstruct A\nterminal {x} {{}}"));
+        out.push(format!("start A\nstruct A {{ {x}: $T }}\nterminal Tok {{ $T: () }}"));
+        out.push(format!("start A\nenum A {{ V {{ y: $T {x}: $T }} }}\nterminal Tok {{ $T: () }}"));
+        out.push(format!("start A\nstruct A({x})\nenum {x} {{ V }}\nterminal Tok {{}}"));
+    }
+    out
 }
 
 #[derive(Debug, PartialEq, Eq)]
@@ -169,6 +204,24 @@ pub fn run(ctx: &Ctx) -> Outcome {
         })
         .collect();
     for a in accs {
+        acc.merge(a);
+    }
+    // capitalisation rules over all short identifiers in every role
+    let probe_accs: Vec<Acc> = name_probe_files()
+        .par_iter()
+        .map(|src| {
+            let mut a = Acc::default();
+            a.inc("files");
+            a.inc("name-probe files (every identifier of <= 4 characters over {a, Z, _, 9} in 7 roles)");
+            match check_source(src, &mut a) {
+                Verdict::Violation(what, e, o) => a.finding(finding(src, what, e, o)),
+                Verdict::NotSyntacticallyValid => a.self_check_errors.push(format!("reference self-check: the reference front end rejects the probe file {src:?}")),
+                Verdict::Fine => {}
+            }
+            a
+        })
+        .collect();
+    for a in probe_accs {
         acc.merge(a);
     }
     // the repository's own should-fail corpus and examples
